@@ -17,7 +17,7 @@ import z3
 
 from .extract import ClassInfo, FuncInfo, Repo
 from .logic import Logic
-from .values import (NONE, OutOfSubset, V, VBool, VComp, VDict, VFam, VFunc, VGraph, VInt, VModule, VNode, VNone,
+from .values import (freeze, NONE, OutOfSubset, V, VBool, VComp, VDict, VFam, VFunc, VGraph, VInt, VModule, VNode, VNone,
                      VNx, VObj, VOpaque, VPos, VSeq, VSet, VStr, VTuple)
 
 MAX_INLINE_DEPTH = 6
@@ -98,6 +98,7 @@ class Exec:
         self._pruner = None
         self.npaths = 0
         self._dup = False
+        self.binders: list = []      # iteration constants of the enclosing comprehensions / loop bodies
         from . import libspec
         self.lib = libspec
 
@@ -243,6 +244,7 @@ class Exec:
     def comp_alts(self, v):
         """Iteration view of a collection: list of (consts, guard, elt) alternatives."""
         L = self.L
+        v = freeze(v)
         if isinstance(v, VComp):
             return v.alts
         if isinstance(v, VSet):
@@ -272,6 +274,7 @@ class Exec:
     def as_set(self, v, arity=None) -> VSet:
         """Materialise a collection of nodes / node tuples as a predicate."""
         L = self.L
+        v = freeze(v)
         if isinstance(v, VSet):
             return v
         if isinstance(v, VSeq):
@@ -404,6 +407,8 @@ class Exec:
         short = fi.qualname.split(".")[-1]
         k = f.ordinals.get("call:" + short, 0) + 1
         f.ordinals["call:" + short] = k
+        if con.frame == "pure":
+            env = {p: (freeze(v) if isinstance(v, V) else v) for p, v in env.items()}
         a = con.adapt(self, env)
         for name, cond in con.pre(self, a):
             self.emit(f"pre.{name}@{short}#{k}", cond, note=f"in {f.func.qualname if f.func else '?'}")
@@ -455,7 +460,7 @@ class Exec:
                         self.frames.pop()
                 if isinstance(r, tuple) and r[0] == "module":
                     return VModule(r[1])
-                return VModule(q) if self.lib.is_lib_module(q) else VFunc("builtin", q)
+                return VModule(q) if self.lib.is_lib_module_name(q) else VFunc("builtin", self.lib._norm_lib(q))
         if self.lib.is_builtin(name):
             return VFunc("builtin", name)
         raise OutOfSubset(f"unresolved name {name}")
@@ -659,7 +664,9 @@ class Exec:
         muts = self._mutables()
         saved = []
         FALSE1 = {}
+        outer = {}
         for m in muts:
+            outer[id(m)] = (getattr(m, "_saved", None), m.read_in_loop)
             if isinstance(m, VSet):
                 saved.append((m, m._pred, m.tracked, getattr(m, "appended", None)))
             elif isinstance(m, VNx):
@@ -670,15 +677,19 @@ class Exec:
         env_before = dict(env)
         # ---- explore the body once per alternative of the source, with the element constants free
         body_paths = []   # (consts, guard, kind, pc_extra, deltas, payload)
+        all_reads = set()
         try:
             for consts, guard, elt in alts:
                 def run_once(elt=elt):
-                    for m in muts:
+                    for m, state, tr, app in saved:
                         m.tracked = True
+                        m.read_in_loop = False
                         if isinstance(m, VSet):
+                            m._saved = outer[id(m)][0] if tr else state     # reads see the state before the outermost loop
                             m._pred = _false_pred
                             m.appended = []
                         elif isinstance(m, VNx):
+                            m._saved = outer[id(m)][0] if tr else state
                             m._N, m._E = _false_pred, _false_pred
                         elif isinstance(m, VDict):
                             m.dom = _false_pred
@@ -689,15 +700,22 @@ class Exec:
                     return None
                 base = list(self.pc) + [guard]
                 n0 = len(base)
-                self._explore_body(run_once, base, muts)
+                self.binders.extend(consts)
+                try:
+                    self._explore_body(run_once, base, muts)
+                finally:
+                    del self.binders[len(self.binders) - len(consts):]
                 for rec in self._body_results:
-                    kind, pc, payload, deltas, rebinds = rec
+                    kind, pc, payload, deltas, rebinds, reads = rec
+                    all_reads |= reads
                     if rebinds:
                         raise OutOfSubset(f"loop-carried variable(s) {sorted(rebinds)}")
                     body_paths.append((consts, guard, kind, pc[n0:], deltas, payload))
         finally:
             for m, state, tr, app in saved:
                 m.tracked = tr
+                m._saved = outer[id(m)][0]
+                m.read_in_loop = outer[id(m)][1] or (id(m) in all_reads)
                 if isinstance(m, VSet):
                     m._pred = state
                     if app is not None:
@@ -711,6 +729,9 @@ class Exec:
             env.clear()
             env.update(env_before)
         # ---- summarise
+        written = {i for p in body_paths for i, d in p[4].items() if d is not None}
+        if written & all_reads:
+            raise OutOfSubset("loop body reads a container it also mutates (needs a sidecar invariant)")
         exits = [p for p in body_paths if p[2] in ("break", "return", "raise")]
         conts = [p for p in body_paths if p[2] in ("return_none", "continue")]
         has_delta = any(any(d is not None for d in p[4].values()) for p in body_paths)
@@ -805,7 +826,8 @@ class Exec:
                             deltas[id(m)] = None if m.dom is _false_pred else (m.dom, m.val)
                     rebinds = {k for k in env_before if k != "__parent__" and env.get(k) is not env_before[k]}
                     # the loop target itself may shadow an outer name; that is a rebind only if read later, be strict
-                    self._body_results.append((kind, list(self.pc), payload, deltas, rebinds - self._loop_targets))
+                    reads = {id(m) for m in muts if m.read_in_loop}
+                    self._body_results.append((kind, list(self.pc), payload, deltas, rebinds - self._loop_targets, reads))
                 for i in range(len(prefix), len(self.trace)):
                     d, n = self.trace[i]
                     for alt in range(d + 1, n):
@@ -818,11 +840,20 @@ class Exec:
 
     def _apply_deltas(self, m, contrib, processed, ordered_src):
         L = self.L
+
+        def bind(consts, body_fn):
+            """exists consts. processed(consts) & body  -- with the binder renamed apart from the (free) exit element,
+            which is denoted by the very same constants when the exiting and the continuing path share an alternative."""
+            if not consts:
+                return L.And(processed(consts), body_fn())
+            fresh = [L.node("p") for _ in consts]
+            body = z3.substitute(body_fn(), *zip(consts, fresh))
+            return L.exists_c(fresh, L.And(processed(fresh), body))
         if isinstance(m, VSet):
             def add(*ys, contrib=contrib):
                 parts = []
                 for consts, guard, pcx, (dp, app) in contrib:
-                    parts.append(L.exists_c(consts, L.And(guard, processed(consts), *pcx, dp(*ys))))
+                    parts.append(bind(consts, lambda: L.And(guard, *pcx, dp(*ys))))
                 return L.Or(*parts)
             # list accumulators filled with the loop element itself, from an ordered source, keep the order
             if (ordered_src is not None and m.kind == "list" and getattr(m, "known_empty", False)
@@ -835,10 +866,10 @@ class Exec:
             m.add_pred(add)
         elif isinstance(m, VNx):
             def addN(y, contrib=contrib):
-                return L.Or(*[L.exists_c(c, L.And(g, processed(c), *pcx, dN(y))) for c, g, pcx, (dN, dE) in contrib])
+                return L.Or(*[bind(c, lambda: L.And(g, *pcx, dN(y))) for c, g, pcx, (dN, dE) in contrib])
 
             def addE(a, b, contrib=contrib):
-                return L.Or(*[L.exists_c(c, L.And(g, processed(c), *pcx, dE(a, b))) for c, g, pcx, (dN, dE) in contrib])
+                return L.Or(*[bind(c, lambda: L.And(g, *pcx, dE(a, b))) for c, g, pcx, (dN, dE) in contrib])
             oldN, oldE = m._N, m._E
             m._N = lambda y: L.Or(oldN(y), addN(y))
             m._E = lambda a, b: L.Or(oldE(a, b), addE(a, b))
@@ -1005,13 +1036,30 @@ class Exec:
                         self.pc.append(t)
                 finally:
                     del self.pc[n0:]
-                gen(i + 1, consts + cs, guards + conds, env2)
+                self.binders.extend(cs)
+                try:
+                    gen(i + 1, consts + cs, guards + conds, env2)
+                finally:
+                    del self.binders[len(self.binders) - len(cs):]
         try:
             gen(0, [], [], {"__parent__": outer_env})
         finally:
             self.frames[-1].env = outer_env
         c = VComp(None, None, None, kind=kind)
         c.alts = results
+        if kind in ("set", "list") and results:
+            # eager comprehensions of nodes / node tuples are materialised (they can be mutated afterwards)
+            if all(isinstance(e, VNode) or (isinstance(e, VTuple) and e.items and all(isinstance(i, VNode) for i in e.items))
+                   for _, _, e in results):
+                try:
+                    m = self.as_set(c)
+                    return VSet(m.pred, arity=m.arity, kind=kind, owned=True)
+                except OutOfSubset:
+                    return c
+            if kind == "set" and all(isinstance(e, VSet) and e.arity == 1 for _, _, e in results):
+                fam = self.lib.as_family(self, c)
+                if fam is not None:
+                    return fam
         return c
 
     # ---------------------------------------------------------------- calls
